@@ -353,27 +353,27 @@ Section WithTable.
 
   (* the placement faults reach the verdict of BIOGEME(...) *)
   Lemma spec_errors_incl_audit db e : incl (audit T db e) (spec_errors T db e).
-  Proof. unfold spec_errors. intros x Hx. repeat (apply in_or_app; right). exact Hx. Qed.
+  Proof. unfold spec_errors. intros x Hx. rewrite !in_app_iff. tauto. Qed.
 
   Theorem spec_refuses_draws db C n t :
     ctx_wf C = true -> passes_under is_mc C = false ->
     In (EDrawsOutside n) (spec_errors T db (plug C (EDraws n t))).
   Proof.
-    intros Hw Hb. unfold spec_errors. apply in_or_app. right. apply in_or_app. left.
+    intros Hw Hb. unfold spec_errors. rewrite !in_app_iff. right. left.
     apply in_map. apply draws_outside_mc_T; assumption.
   Qed.
   Theorem spec_refuses_rv db C n :
     ctx_wf C = true -> passes_under is_integrate C = false ->
     In (ERvOutside n) (spec_errors T db (plug C (ERV n))).
   Proof.
-    intros Hw Hb. unfold spec_errors. apply in_or_app. right. apply in_or_app. right. apply in_or_app. left.
+    intros Hw Hb. unfold spec_errors. rewrite !in_app_iff. right. right. left.
     apply in_map. apply rv_outside_integral_T; assumption.
   Qed.
   Theorem spec_refuses_var_outside db C n :
     d_panel db = true -> ctx_wf C = true -> passes_under is_traj C = false ->
     In (EVarOutsideTraj n) (spec_errors T db (plug C (EVar n))).
   Proof.
-    intros Hp Hw Hb. unfold spec_errors. do 3 (apply in_or_app; right). apply in_or_app. left.
+    intros Hp Hw Hb. unfold spec_errors. rewrite !in_app_iff. right. right. right. left.
     rewrite Hp. apply in_map. apply var_outside_trajectory_T; assumption.
   Qed.
   Theorem spec_refuses_missing_column db C x :
@@ -459,18 +459,21 @@ Section WithTable.
      \/ ~ NoDup (d_cols db)) ->
     In EDuplicate (spec_errors T db e).
   Proof.
-    intros H. apply prepare_refuses_iff in H. unfold spec_errors. rewrite H. left. reflexivity.
+    intros H. apply prepare_refuses_iff in H. unfold spec_errors, idmanager_errors. rewrite H.
+    rewrite !in_app_iff. left. right. left. reflexivity.
   Qed.
 
   (* ================================================================== 5. no false rejection *)
   Theorem no_false_rejection_T db e :
     prepare [e] (d_cols db) <> None ->
+    clashing_names (draw_decls e) = [] ->
     placed_ok is_draws is_mc e -> placed_ok is_rv is_integrate e ->
     (d_panel db = true -> placed_ok is_var is_traj e) ->
     faultfree db e ->
     spec_errors T db e = [].
   Proof.
-    intros Hp Hd Hr Hv Hf. unfold spec_errors.
+    intros Hp Hc Hd Hr Hv Hf. unfold spec_errors, idmanager_errors, draw_type_errors.
+    cbn [flat_map]. rewrite app_nil_r, Hc. cbn [map app].
     destruct (prepare [e] (d_cols db)); [|congruence].
     unfold check_draws, check_rv, check_panel.
     rewrite (placed_ok_collect_nil (t_draws T) is_draws is_mc T_draws e Hd).
@@ -624,14 +627,36 @@ Proof.
     exfalso. exact (H i j a b x Hij Ha Hb Hxa Hxb).
 Qed.
 
+Lemma nodupZb_NoDup l : nodupZb l = true <-> NoDup l.
+Proof.
+  induction l as [|x r IH]; cbn.
+  - split; [constructor|reflexivity].
+  - rewrite andb_true_iff, negb_true_iff, mem_Z_false, IH. split.
+    + intros [H1 H2]. constructor; assumption.
+    + intros H. inversion H; subst. auto.
+Qed.
+
+Lemma nests_repeat_false ns : nests_repeat ns = false <-> (forall a, In a (n_alts ns) -> NoDup a).
+Proof.
+  unfold nests_repeat. split.
+  - intros H a Ha. apply nodupZb_NoDup. destruct (nodupZb a) eqn:E; [reflexivity|].
+    assert (Ht : existsb (fun a => negb (nodupZb a)) (n_alts ns) = true).
+    { apply existsb_exists. exists a. rewrite E. auto. }
+    congruence.
+  - intros H. destruct (existsb _ (n_alts ns)) eqn:E; [|reflexivity].
+    apply existsb_exists in E. destruct E as (a & Ha & Hn). apply negb_true_iff in Hn.
+    rewrite (proj2 (nodupZb_NoDup a) (H a Ha)) in Hn. discriminate.
+Qed.
+
 (* T12f *)
 Theorem nested_ok_iff ns :
   nested_ok ns = true <->
-  (forall a x, In a (n_alts ns) -> In x a -> In x (n_choice_set ns)) /\ disjoint_nests (n_alts ns).
+  (forall a x, In a (n_alts ns) -> In x a -> In x (n_choice_set ns)) /\
+  (forall a, In a (n_alts ns) -> NoDup a) /\ disjoint_nests (n_alts ns).
 Proof.
-  unfold nested_ok. rewrite <- nests_invalid_nil, <- nests_overlap_false.
+  unfold nested_ok. rewrite <- nests_invalid_nil, <- nests_overlap_false, <- nests_repeat_false.
   destruct (nests_invalid ns) as [|z r] eqn:E.
-  - rewrite union_ok_of_valid by exact E. cbn. rewrite negb_true_iff. tauto.
+  - rewrite union_ok_of_valid by exact E. cbn. rewrite andb_true_iff, !negb_true_iff. tauto.
   - split; [discriminate|]. intros [H _]. discriminate.
 Qed.
 
@@ -649,7 +674,7 @@ Theorem nests_overlap_rejected ns i j a b x :
   nested_ok ns = false.
 Proof.
   intros Hij Ha Hb Hxa Hxb. destruct (nested_ok ns) eqn:E; [|reflexivity].
-  apply nested_ok_iff in E. destruct E as [_ Hd]. exfalso. exact (Hd i j a b x Hij Ha Hb Hxa Hxb).
+  apply nested_ok_iff in E. destruct E as (_ & _ & Hd). exfalso. exact (Hd i j a b x Hij Ha Hb Hxa Hxb).
 Qed.
 
 Theorem nests_outside_rejected ns a x :
@@ -722,6 +747,54 @@ Theorem duplicates_rejected db e :
   In EDuplicate (spec_errors G db e).
 Proof. exact (duplicates_rejected_T G db e). Qed.
 
+(* one draw name with two distributions, in the same formula or in two formulas of one specification *)
+Lemma gen_scope_all : gen_draw_scope = ScopeAll.
+Proof. reflexivity. Qed.
+
+Lemma draw_decls_ctx C n t : In (n, t) (draw_decls (plug C (EDraws n t))).
+Proof.
+  unfold draw_decls. apply in_flat_map. exists (EDraws n t). split; [apply subterms_plug|]. cbn. auto.
+Qed.
+
+Lemma clashing_names_In l n t1 t2 :
+  In (n, t1) l -> In (n, t2) l -> t1 <> t2 -> In n (clashing_names l).
+Proof.
+  intros H1 H2 Hne. unfold clashing_names. apply in_map_iff. exists (n, t1). split; [reflexivity|].
+  apply filter_In. split; [exact H1|]. unfold decl_clashes. apply existsb_exists. exists (n, t2).
+  split; [exact H2|]. cbn. rewrite String.eqb_refl. cbn. apply negb_true_iff. apply String.eqb_neq. exact Hne.
+Qed.
+
+Lemma clashing_names_sound l n :
+  In n (clashing_names l) -> exists t1 t2, In (n, t1) l /\ In (n, t2) l /\ t1 <> t2.
+Proof.
+  unfold clashing_names. intros H. apply in_map_iff in H. destruct H as ([m t1] & E & H). cbn in E. subst m.
+  apply filter_In in H. destruct H as [H1 H2]. unfold decl_clashes in H2. apply existsb_exists in H2.
+  destruct H2 as ([m t2] & H2 & H3). cbn in H3. apply andb_prop in H3. destruct H3 as [E1 E2].
+  apply String.eqb_eq in E1. subst m. apply negb_true_iff in E2. apply String.eqb_neq in E2. eauto.
+Qed.
+
+(* wherever the two declarations sit: any two formulas of the specification (possibly the same one), any
+   two contexts *)
+Theorem draw_type_clash_rejected fs cols f1 f2 C1 C2 n t1 t2 :
+  In f1 fs -> In f2 fs -> f1 = plug C1 (EDraws n t1) -> f2 = plug C2 (EDraws n t2) -> t1 <> t2 ->
+  In (EDrawTypes n) (idmanager_errors gen_draw_scope fs cols).
+Proof.
+  intros H1 H2 E1 E2 Hne. rewrite gen_scope_all. unfold idmanager_errors, draw_type_errors.
+  apply in_or_app. left. apply in_map. apply (clashing_names_In _ n t1 t2); [| |exact Hne];
+    apply in_flat_map; [exists f1|exists f2]; (split; [assumption|]); subst; apply draw_decls_ctx.
+Qed.
+
+(* no false rejection: a reported clash is a name declared with two different types *)
+Theorem draw_type_error_sound fs n :
+  In (EDrawTypes n) (draw_type_errors gen_draw_scope fs) ->
+  exists f1 f2 t1 t2, In f1 fs /\ In f2 fs /\ In (n, t1) (draw_decls f1) /\ In (n, t2) (draw_decls f2) /\ t1 <> t2.
+Proof.
+  rewrite gen_scope_all. unfold draw_type_errors. intros H. apply in_map_iff in H. destruct H as (m & E & H).
+  inversion E; subst m. apply clashing_names_sound in H. destruct H as (t1 & t2 & H1 & H2 & Hne).
+  apply in_flat_map in H1. destruct H1 as (f1 & Hf1 & H1). apply in_flat_map in H2. destruct H2 as (f2 & Hf2 & H2).
+  exists f1, f2, t1, t2. auto.
+Qed.
+
 (* a specification with several formulas: the fault of ANY formula (first, middle, last) is reported,
    because the generated rule of BIOGEME._audit accumulates the lists *)
 Lemma gen_acc_all : gen_biogeme_acc = AccAll.
@@ -768,6 +841,7 @@ Proof. exact (audit_sound G db e x). Qed.
 
 Theorem no_false_rejection db e :
   prepare [e] (d_cols db) <> None ->
+  clashing_names (draw_decls e) = [] ->
   placed_ok is_draws is_mc e -> placed_ok is_rv is_integrate e ->
   (d_panel db = true -> placed_ok is_var is_traj e) ->
   faultfree G db e ->
